@@ -7,7 +7,7 @@ from lib.tlaval import to_tla
 
 LEVEL = 'model_checking'
 EPS = 1e-6
-ALL_ACTS = ['modereq', 'addplayer', 'score', 'var', 'pvar', 'eb', 'lb', 'shot', 'ach', 'mode', 'timer', 'endgame', 'tv', 'hold', 'late',
+ALL_ACTS = ['modereq', 'addplayer', 'burst', 'score', 'var', 'pvar', 'eb', 'lb', 'shot', 'ach', 'mode', 'timer', 'endgame', 'tv', 'hold', 'late',
             'read']
 INTVARS = ['score', 'bonus', 'ball', 'extra_balls', 'shot_sh1', 'shot_sh2', 'shot_sh3', 'shot_sh1_enabled',
            'shot_sh2_enabled', 'gm2_t2_tick']
@@ -19,7 +19,9 @@ RVARS = INTVARS + TVARS + ['c1_state', 'a1_state', 'q1_state', 'c2_state', 'achi
                            'shot_sh3_enabled', 'foo']
 XVARS = [n for n in RVARS if n not in INTVARS and n not in TVARS]
 RPATHS = ['cond', 'attr', 'tmpl', 'item', 'condcur', 'sub', 'tmplcur', 'tsub']
-CONFIGS = [dict(bpg=2, maxp=3), dict(bpg=3, maxp=2), dict(bpg=2, maxp=1)]
+CONFIGS = [dict(bpg=2, maxp=3), dict(bpg=3, maxp=2), dict(bpg=2, maxp=1), dict(bpg=2, maxp=4)]
+MAXP = 4                       # Players!MaxP of the generated schedules and of the trace validation
+BURST_WAYS = ['switch', 'call', 'event', 'direct']
 # code-as-is deviations from the statement that the Trace spec can name (PlayersTrace!DevLate)
 DEVIATIONS = ['LateModeStart']
 DEV_WHAT = {'LateModeStart': 'a game mode that is started while the ended ball still waits for another game mode to stop (held '
@@ -28,12 +30,12 @@ DEV_WHAT = {'LateModeStart': 'a game mode that is started while the ended ball s
                              'the NEXT player\'s turn change the previous player\'s persisted state (mode.py start() only asks for '
                              'game and player; mode_controller._ball_ending stops the modes active at that moment only; '
                              '_player_turn_ended stops nothing)'}
-MONITORS = ['FrameOK', 'FreshOK', 'RestoreOK', 'VarEventOK', 'TurnOK', 'LiveOK', 'OwnOK', 'VarSetOK', 'ReadOK']
+MONITORS = ['NumbersOK', 'FrameOK', 'FreshOK', 'RestoreOK', 'VarEventOK', 'TurnOK', 'LiveOK', 'OwnOK', 'VarSetOK', 'ReadOK']
 
 
 # ---- machine under test ------------------------------------------------------------------------------------------
 def write_machine(root, bpg, maxp):
-    d = os.path.join(root, 'machines', 'players_%d_%d' % (bpg, maxp))
+    d = os.path.join(root, 'machines', 'players_b_%d_%d' % (bpg, maxp))
     if os.path.exists(d + '/config/config.yaml'):
         return d
     os.makedirs(d + '/config', exist_ok=True)
@@ -44,6 +46,7 @@ def write_machine(root, bpg, maxp):
 game:
   balls_per_game: %d
   max_players: %d
+  add_player_event: add_my_player
 switches:
   s_start:
     number:
@@ -74,7 +77,7 @@ shot_profiles:
 event_player:
 %s
 """ % (bpg, maxp, '\n'.join(
-            ['  rd_%d_%s{players[%d].%s}: rdres' % (q, v, q - 1, v) for q in (1, 2, 3) for v in RVARS] +
+            ['  rd_%d_%s{players[%d].%s}: rdres' % (q, v, q - 1, v) for q in range(1, MAXP + 1) for v in RVARS] +
             ['  rdc_%s{current_player.%s}: rdres' % (v, v) for v in RVARS])))
     with open(d + '/modes/gm1/config/gm1.yaml', 'w') as f:
         f.write("""#config_version=6
@@ -217,7 +220,10 @@ EXTENDS Players
 MCConfigs == {%s}
 \* schedule shaping for simulation only: most of the time players join right at the start of a first ball
 \* a ball that waits for the held stop is released after a few steps; a held stop is often followed by the drain
-GenShape == /\ (ph = "ball" /\ P[cur].ball = 1 /\ np < cfg.maxp /\ bops = 0 /\ nops %% 4 # 3) => act'.op = "addplayer"
+\* (one at a time or in bursts of add requests made within one instant)
+GenShape == /\ (ph = "ball" /\ P[cur].ball = 1 /\ np < cfg.maxp /\ bops = 0 /\ nops %% 4 # 3) => act'.op \in {"addplayer", "addburst"}
+\* bursts that are refused (game full, after ball 1): now and then only
+            /\ (act'.op = "addburst" /\ np' = np) => nops %% 9 = 4
             /\ (ph = "ending" /\ bops >= 2) => act'.op = "release"
             /\ (ph = "ball" /\ vol.stp /\ nops %% 2 = 0) => act'.op \in {"ballend", "endgame"}
             /\ (act'.op = "ballend" /\ act'.h) => nops %% 3 = 0
@@ -236,13 +242,14 @@ GenShape == /\ (ph = "ball" /\ P[cur].ball = 1 /\ np < cfg.maxp /\ bops = 0 /\ n
 MC_READS = (['shot_sh1_enabled', 'c2_state', 'foo'], ['attr', 'cond', 'tmplcur'])
 
 
-def cfg_text(spec, configs_def, acts, maxops, maxadv, maxgames, maxeb, props, ballops=1000000, maxreq=2, dev=(), reads=None):
+def cfg_text(spec, configs_def, acts, maxops, maxadv, maxgames, maxeb, props, ballops=1000000, maxreq=2, dev=(), reads=None,
+             maxp=MAXP):
     rvars, rpaths = reads or (sorted(set(RVARS)), RPATHS)
     return """SPECIFICATION %s
 CONSTANTS
   Configs <- %s
   Acts = {%s}
-  MaxP = 3
+  MaxP = %d
   MaxOps = %d
   MaxAdv = %d
   MaxGames = %d
@@ -253,12 +260,12 @@ CONSTANTS
   ReadVars = {%s}
   ReadPaths = {%s}
 %sCHECK_DEADLOCK FALSE
-""" % (spec, configs_def, ', '.join('"%s"' % a for a in acts), maxops, maxadv, maxgames, maxeb, ballops, maxreq,
+""" % (spec, configs_def, ', '.join('"%s"' % a for a in acts), maxp, maxops, maxadv, maxgames, maxeb, ballops, maxreq,
        ', '.join('"%s"' % d for d in dev), ', '.join('"%s"' % x for x in rvars), ', '.join('"%s"' % x for x in rpaths), props)
 
 
-PROPS = ('INVARIANT TypeOK\nINVARIANT Attached\nINVARIANT NothingSurvives\nPROPERTY Frame\nPROPERTY Restore\n'
-         'PROPERTY FreshGame\nPROPERTY VarEvent\nPROPERTY ReadPure\n')
+PROPS = ('INVARIANT TypeOK\nINVARIANT Attached\nINVARIANT NothingSurvives\nINVARIANT NumbersDistinct\nPROPERTY Frame\nPROPERTY Restore\n'
+         'PROPERTY FreshGame\nPROPERTY VarEvent\nPROPERTY ReadPure\nPROPERTY NumbersKept\n')
 # exhaustive runs, partitioned by action family: (label, configs, acts, MaxOps quick/thorough, MaxAdv, MaxGames, MaxEB)
 MC_RUNS = [
     ('skeleton+score+counter', [dict(bpg=2, maxp=3)], ['modereq', 'addplayer', 'score', 'lb', 'eb', 'endgame'], (4, 6), 0, 1, 1),
@@ -269,17 +276,22 @@ MC_RUNS = [
     ('typed-vars', [dict(bpg=2, maxp=2)], ['addplayer', 'tv', 'endgame'], (3, 4), 0, 1, 0),
     ('targeted-vars', [dict(bpg=2, maxp=3), dict(bpg=2, maxp=1)], ['addplayer', 'pvar', 'var', 'score'], (4, 5), 0, 1, 0),
     ('reads', [dict(bpg=2, maxp=2)], ['addplayer', 'read', 'shot', 'mode'], (3, 4), 0, 1, 0),
+    # add requests in bursts (two or three within one instant) next to single adds, up to four players, two games
+    ('bursts', [dict(bpg=2, maxp=4), dict(bpg=2, maxp=3)], ['addplayer', 'burst', 'score', 'pvar', 'endgame'], (4, 5), 0, 2, 0),
 ]
 
 # schedule generation profiles: (action families, ops per ball, share of the schedules)
 GEN_PROFILES = [
     ([a for a in ALL_ACTS if a not in ('tv', 'late', 'read')], 6, 0.27),
-    (['modereq', 'addplayer', 'lb', 'mode', 'score', 'eb', 'hold', 'late'], 5, 0.23),
-    (['modereq', 'addplayer', 'shot', 'ach', 'var', 'pvar', 'endgame', 'eb'], 5, 0.18),
-    (['modereq', 'addplayer', 'mode', 'timer', 'hold'], 6, 0.22),
-    (['addplayer', 'tv', 'var', 'pvar', 'endgame', 'eb'], 5, 0.10),
+    (['modereq', 'addplayer', 'burst', 'lb', 'mode', 'score', 'eb', 'hold', 'late'], 5, 0.23),
+    (['modereq', 'addplayer', 'burst', 'shot', 'ach', 'var', 'pvar', 'endgame', 'eb'], 5, 0.18),
+    (['modereq', 'addplayer', 'burst', 'mode', 'timer', 'hold'], 6, 0.22),
+    (['addplayer', 'burst', 'tv', 'var', 'pvar', 'endgame', 'eb'], 5, 0.10),
     # reads of player variables (own, other players', players who have not joined) between everything the devices persist
-    (['modereq', 'addplayer', 'read', 'shot', 'lb', 'mode', 'timer', 'eb', 'tv', 'endgame'], 6, 0.15),
+    (['modereq', 'addplayer', 'burst', 'read', 'shot', 'lb', 'mode', 'timer', 'eb', 'tv', 'endgame'], 6, 0.15),
+    # many players, joining one at a time and in bursts; every player scores, progresses in the persisted devices and is
+    # written to by name during everybody's turn: whose number do the events carry, whose state comes back
+    (['addplayer', 'burst', 'score', 'var', 'pvar', 'lb', 'shot', 'mode', 'eb'], 3, 0.12),
 ]
 
 # ---- execution on real mpf -------------------------------------------------------------------------------------------
@@ -335,7 +347,8 @@ def project_player(p, pos):
             'ach': (ach.get('ach') or [None])[0] or 'none',
             'tick': int(v['gm2_t2_tick']) if v.get('gm2_t2_tick') is not None else -1,
             'rs': any(getattr(x, 'name', None) == 'gm2' for x in rs), 'xv': xv + sum(1 for x in rs if getattr(x, 'name', None) != 'gm2'),
-            'tv': {n: enc(v[n]) if n in v else '-' for n in TVARS}}
+            'tv': {n: enc(v[n]) if n in v else '-' for n in TVARS},
+            'num': v['number'] if isinstance(v.get('number'), int) else -1}
 
 
 def project_live(m):
@@ -369,9 +382,11 @@ class GameRun:
         self.xevlog = []
         self.rdres = []
         self.rd = {}
+        self.way = ''
         for n in XVARS:
             self.m.events.add_handler('player_' + n, self._mkx(n), priority=1)
         self.m.events.add_handler('rdres', self._rdres, priority=1)
+        self.m.events.add_handler('c11_burst', self._burst, priority=1)
         for n in INTVARS:
             self.m.events.add_handler('player_' + n, self._mk(n), priority=1)
         for n in TVARS:
@@ -400,6 +415,11 @@ class GameRun:
         def hnd(**kwargs):
             self.xevlog.append(n)
         return hnd
+
+    def _burst(self, k, **kwargs):
+        """E.g. custom code / a coin door handler that adds several players at once."""
+        for _ in range(k):
+            self.m.game.request_player_add()
 
     def _rdres(self, **kwargs):
         self.rdres.append(1)
@@ -459,6 +479,8 @@ class GameRun:
             rec['fb'] = self.fb
         if a['op'] == 'read':
             rec.update(self.rd)
+        if a['op'] == 'addburst':
+            rec['way'] = self.way
         rec['pl'] = [project_player(p, i) for i, p in enumerate(g.player_list)] if g else []
         rec['vs'] = [sorted(p.vars) for p in g.player_list] if g else []
         rec['xevs'] = self.xevlog[:]
@@ -492,6 +514,22 @@ class GameRun:
             self.held.pop(0).clear()
         elif op == 'addplayer':
             h.hit_and_release_switch('s_start')
+        elif op == 'addburst':
+            # k add requests within one instant: nothing runs between them, all are handled in the same drain of the event queue
+            way = a.get('way') or self.rnd.choice(BURST_WAYS)
+            self.way = way
+            if way == 'switch':         # k presses of the start button
+                for _ in range(a['k']):
+                    m.switch_controller.process_switch('s_start', state=1, logical=True)
+                    m.switch_controller.process_switch('s_start', state=0, logical=True)
+            elif way == 'call':         # one event handler that calls request_player_add() k times
+                m.events.post('c11_burst', k=a['k'])
+            elif way == 'event':        # k add-player events (game: add_player_event)
+                for _ in range(a['k']):
+                    m.events.post('add_my_player')
+            else:                       # k direct calls from outside the event queue
+                for _ in range(a['k']):
+                    m.game.request_player_add()
         elif op == 'score':
             m.events.post('score_100')
         elif op == 'var':
@@ -664,6 +702,29 @@ def handmade():
     out.append((2, [NG, R(1, 'shot_sh1_enabled', 'attr'), R(2, 'shot_sh1_enabled', 'tmpl'), R(3, 'c1_state', 'cond'), TS, AP,
                     R(2, 'shot_sh1_enabled', 'sub'), R(1, 'c2_state', 'item'), sh(1), BE, TS, R(1, 'c2_state', 'condcur'), MS, hit('c2'), sh(1),
                     R(1, 'shot_sh3_enabled', 'attr'), BE, NG, R(1, 'shot_sh1_enabled', 'condcur'), R(1, 'c2_state', 'tmplcur'), TS, sh(1), BE]))
+    # add requests in bursts: two or three within one instant (presses of the start button, calls of request_player_add() in one
+    # handler, add-player events, direct calls), at the start of the game, after a single add, during player 2's first ball;
+    # refused bursts (game full, after ball 1).  Every player then scores, makes progress in the persisted devices and is
+    # written to by name; on their second balls everybody gets back what he had
+    AB = lambda k, way: A('addburst', k=k, way=way)
+    SC = A('score')
+    out.append((3, [NG, TS, SC, AB(3, 'switch'), hit('c1'), pv('add', 2), BE, TS, SC, SC, hit('c1'), hit('c1'), sh(1), pv('add', 1), BE,
+                    TS, SC, hit('a1', 0), MS, hit('c2'), A('var', kind='add'), pv('set', 2), BE, TS, hit('c1'), hit('c1'), hit('c1'), sh(1),
+                    sh(1), pv('add', 2), A('awardeb'), BE, SC, BE, TS, hit('c1'), AB(2, 'call'), SC, BE, TS, hit('c1'), BE, TS, hit('c2'),
+                    BE, TS, hit('c1'), AP, BE, NG, TS, AB(2, 'event'), BE, TS, SC, BE, TS, BE]))
+    out.append((0, [NG, TS, AB(2, 'call'), AB(2, 'event'), hit('c1'), SC, MS, hit('c2'), BE, TS, hit('c1'), hit('c1'), AB(3, 'direct'), BE,
+                    TS, SC, tv(3, 'sel', 's:A'), tv(1, 'sel', 'i:1'), BE, TS, hit('c2'), AB(2, 'switch'), BE, TS, hit('c1'), BE, TS, SC, BE]))
+    out.append((3, [NG, TS, AP, AB(2, 'event'), AP, SC, BE, TS, hit('c1'), BE, TS, sh(1), BE, TS, SC, A('endgame'), NG, TS, AB(2, 'direct'),
+                    hit('c1'), BE, TS, AP, SC, BE, TS, sh(1), BE, TS, SC, SC, BE, TS, hit('c1'), BE, TS, SC, BE, TS, sh(1), BE, TS, SC, BE]))
+    out.append((3, [NG, TS, AP, SC, BE, TS, SC, AB(2, 'switch'), hit('c1'), BE, TS, SC, pv('add', 2), BE, TS, hit('c1'), hit('c1'), BE, TS,
+                    SC, BE, TS, hit('c1'), BE, TS, SC, BE, TS, hit('c1'), BE]))
+    out.append((1, [NG, TS, AP, AB(2, 'switch'), SC, BE, TS, AB(2, 'call'), hit('c1'), BE, TS, AB(2, 'event'), BE, TS, BE, TS, SC, BE, TS, BE]))
+    out.append((2, [NG, TS, AB(2, 'switch'), AB(3, 'event'), SC, BE, TS, AB(2, 'direct'), hit('c1'), BE]))
+    for way in BURST_WAYS:
+        out.append((3, [NG, TS, AB(3, way), SC, BE, TS, SC, SC, BE, TS, hit('c1'), BE, TS, SC, sh(1), BE, TS, BE, TS, SC, BE, TS, hit('c1'),
+                        BE, TS, BE], 'once'))       # (nothing in these two is left to the random choices of the execution)
+        out.append((0, [NG, TS, SC, AB(2, way), hit('c1'), BE, TS, SC, BE, TS, hit('c1'), hit('c1'), BE, TS, SC, BE, TS, BE, TS, hit('c1'), BE],
+                    'once'))
     return out
 
 
@@ -705,7 +766,7 @@ def run(ctx):
             f.write(mc_module(cfgs))
         with open(wd + '/MC.cfg', 'w') as f:
             f.write(cfg_text('Spec', 'MCConfigs', acts, maxops[q], maxadv[q] if isinstance(maxadv, tuple) else maxadv,
-                             maxgames, maxeb, PROPS, reads=MC_READS))
+                             maxgames, maxeb, PROPS, reads=MC_READS, maxp=max([3] + [c['maxp'] for c in cfgs])))
         r = tlc.expect_ok(tlc.check(wd, 'PlayersMC', 'MC.cfg', workers=6, timeout=1500), 'Players design check (%s)' % label)
         ctx.add_tlc('PlayersMC ' + label, r, {'configs': cfgs, 'Acts': acts, 'MaxOps': maxops[q], 'MaxAdv': maxadv, 'MaxGames': maxgames})
     ctx.coverage['monitors'] += ['Frame', 'Restore', 'FreshGame', 'NothingSurvives', 'VarEvent', 'Attached'] + MONITORS
@@ -720,9 +781,11 @@ def run(ctx):
                             depth=64 if ctx.quick else 90, seed=ctx.seed + gi)
         behs += b
     jobs = []
-    for ci, s in handmade():
+    for item in handmade():
+        ci, s = item[:2]
         jobs.append((ctx.scratch, CONFIGS[ci], s, 7))
-        jobs.append((ctx.scratch, CONFIGS[ci], s, 8))
+        if len(item) == 2:
+            jobs.append((ctx.scratch, CONFIGS[ci], s, 8))
     jobs += [(ctx.scratch, {'bpg': b[0]['cfg']['bpg'], 'maxp': b[0]['cfg']['maxp']}, [s['act'] for s in b], ctx.seed * 1000 + i)
              for i, b in enumerate(behs)]
     for c in CONFIGS:
@@ -789,7 +852,20 @@ def run(ctx):
                                                       and x.get('live', {}).get('g1') for x in ev[k + 1:])
                 for k, e in enumerate(ev)))(t['ev']))}
     ctx.coverage['games_with_players'] = {str(n): sum(1 for t in traces if max([len(e.get('pl', [])) for e in t['ev']] or [0]) == n)
-                                          for n in (1, 2, 3)}
+                                          for n in range(1, MAXP + 1)}
+    ab = [(e, t['ev'][k - 1], t['ev'][k + 1:]) for t in traces for k, e in enumerate(t['ev']) if k and e['op'] == 'addburst']
+    ctx.coverage['add_requests_in_bursts'] = {
+        'total': len(ab), 'by way': {w: sum(1 for e, _, _ in ab if e.get('way') == w) for w in BURST_WAYS},
+        'granted (2 players joined)': sum(1 for e, p, _ in ab if len(e['pl']) - len(p['pl']) == 2),
+        'granted (3 players joined)': sum(1 for e, p, _ in ab if len(e['pl']) - len(p['pl']) == 3),
+        'refused (game full / after ball 1)': sum(1 for e, p, _ in ab if len(e['pl']) == len(p['pl'])),
+        'not during player 1\'s turn': sum(1 for e, p, _ in ab if e.get('cur') != 1),
+        'after progress in the ball': sum(1 for e, p, _ in ab if p['op'] not in ('turnstart', 'addplayer', 'addburst')),
+        'balls later started for players who joined in a burst': sum(
+            1 for e, p, rest in ab for x in rest
+            if x['op'] in ('turnstart', 'ballend', 'release') and x.get('live', {}).get('g1') and len(p['pl']) < x.get('cur', 0) <= len(e['pl'])),
+        'player_<var> events of players who joined in a burst': sum(
+            1 for e, p, rest in ab for x in rest for y in x.get('evs', []) if len(p['pl']) < y[4] <= len(e['pl']) and y[3] != 0)}
     ctx.sample({'kind': 'player-trace', 'cfg': traces[0]['cfg'],
                 'trace': [{k: e[k] for k in e if k not in ('live',)} for e in traces[0]['ev'][:5]]})
     for i, info in sorted(v.rejected.items()):
@@ -827,6 +903,10 @@ def run(ctx):
         'queue event so that the moment between two turns (and before the first turn) is observable and mode start requests can be '
         'placed there',
         'virtual time; all actions of a schedule happen at whole seconds (adv = 1 s + 1 us), timer tick interval 1 s, timed pause 2 s',
+        'add requests in bursts: k = 2 or 3 requests made without running the machine in between (presses of the start switch, '
+        'calls of game.request_player_add() inside one handler of a test event, events named by game: add_player_event, direct calls), '
+        'only during a ball; bursts larger than the free slots are not generated (they overshoot max_players on the unchanged '
+        'tree: known finding C06:AddRace, judged by C06); nobody denies a player_add_request and no player_adding queue event is held',
         'achievement transitions are taken from the observation (only ownership/restoration of the state is constrained)',
         'zero-change announce events (player added, variable created with its default) are not player-variable changes and are ignored',
         'string/None/int valued player variables are written through the Player API (player[var] = v / setattr), also for a player '
